@@ -243,6 +243,15 @@ def stepLine (s : DState) (line : String) : DState × String :=
   | "cfg" :: rest =>
     let (g, e) := start (parseCfg rest)
     ({ s with game := some g }, gameStr "st" g (errName e))
+  | ["op", "seatante", _] =>   -- Player(i).PayAnte() outside the ante phase (the harness sends it only then): refused, nothing changes
+    match s.game with
+    | some g => if g.opts.ante = 0 || g.event != .anteRequested then (s, gameStr "st" g (errName (some .invalidAction))) else (s, "bad")
+    | none => (s, "bad")
+  | ["op", "seatblinds", _] =>   -- Player(i).PayBlinds() outside the blinds phase: refused, nothing changes
+    match s.game with
+    | some g => if g.event != .blindsRequested then (s, gameStr "st" g (errName (some .invalidAction))) else (s, "bad")
+    | none => (s, "bad")
+  | "noise" :: _ => (s, "ok")   -- a call of an options / deck constructor of the package while the hand runs: no effect on the hand
   | "op" :: rest =>
     match s.game, parseOp rest with
     | some g, some op =>
